@@ -21,6 +21,7 @@ ASSUMPTIONS = [
 ]
 SPEC = {
     'quick': [('K1', 'ar', 6),
+              ('K13', 'ar4', 4),
               ('K30', 'lend', 4),
               ('K33', 'lend', 4),
               ('K25', 'lend', 4),
@@ -66,10 +67,17 @@ def _interest_grid(sc, res):
     exch.install_deterministic_ids()
     _, pct, period, bp, qp = sc
     found = []
-    for minint, isym, step_us in ((0, "USD", None), (1, "USD", None), (0, "same", None), (1, "same", None),
-                                  (0, "USD", 750000), (0, "same", 1500001)):
+    for minint, isym, step_us, extra_us in ((0, "USD", None, 0), (1, "USD", None, 0), (0, "same", None, 0), (1, "same", None, 0),
+                                            (0, "USD", 750000, 0), (0, "same", 1500001, 0),
+                                            # a period that is not a whole number of steps, with a sub-millisecond part
+                                            (0, "USD", 750000, 999), (0, "same", None, 123457)):
         if True:
-            cfg = dict(lend=dict(req="0", isym=isym, period=period, minint=minint, pct=pct), fee=None, liq=None,
+            lend = dict(req="0", isym=isym, period=period, minint=minint, pct=pct)
+            if extra_us and period:
+                lend["period_us"] = period * (step_us or 86400 * 10 ** 6) + extra_us
+            elif extra_us:
+                continue
+            cfg = dict(lend=lend, fee=None, liq=None,
                        init=(("USD", 100000), ("BTC", 1000)), bp=bp, qp=qp, step_us=step_us)
             u = exch.unit(cfg)
             loans = [("USD", "100"), ("USD", "33.33" if qp >= 2 else "33"), ("USD", "7"), ("BTC", str(u)), ("BTC", str(3 * u))]
